@@ -237,7 +237,8 @@ static void run_pass(struct op *ops, int nops, unsigned char fill, struct res *r
       for (int pg = 1; pg <= 256; pg++)
         mmap((void *)(base + (uintptr_t)pg * PAGE), PAGE, PROT_NONE, MAP_PRIVATE | MAP_ANONYMOUS | MAP_FIXED_NOREPLACE, -1, 0);
       break; }
-    case 'J': if (setresgid(65534, 65534, 65534) || setresuid(65534, 65534, 65534)) { } break;   /* the rest of the script runs as an unprivileged user */
+    case 'J': if (o->a == 2) { if (setreuid(65534, 0)) { } }   /* real user nobody, effective user unchanged */
+              else if (setresgid(65534, 65534, 65534) || setresuid(65534, 65534, 65534)) { } break;   /* the rest of the script runs as an unprivileged user */
     case 'L': { struct rlimit rl; getrlimit(RLIMIT_NOFILE, &rl); rl.rlim_cur = (rlim_t)o->a; setrlimit(RLIMIT_NOFILE, &rl); break; }   /* descriptor limit of this script's process */
     case 'W': tw[0] = o->a; tw[1] = o->b; tw[2] = o->c; tw[3] = o->d; tw[4] = o->e; have_tw = 1; break;
     case 'P': {
@@ -487,7 +488,7 @@ int main(void) {
     case 'K': sscanf(ln + 2, "%d %lld", &o->i, &o->wide); o->a = o->wide > (1LL << 30) ? (1 << 30) : (int)o->wide; break;   /* the chunk size is a size_t */
     case 'F': case 'G': sscanf(ln + 2, "%d %d", &o->i, &o->a); break;
     case 'L': sscanf(ln + 2, "%d", &o->a); o->i = 0; break;
-    case 'J': o->i = 0; break;
+    case 'J': o->i = 0; o->a = 0; sscanf(ln + 2, "%d", &o->a); break;
     case 'Q': sscanf(ln + 2, "%d", &o->i); break;
     case 'W': sscanf(ln + 2, "%d %d %d %d %d", &o->a, &o->b, &o->c, &o->d, &o->e); break;
     case 'A': case 'T': hex[0] = 0; sscanf(ln + 2, "%d %7s %31s %4194303s", &o->i, o->flags, o->tag, hex); break;
